@@ -114,7 +114,19 @@ def summary(pid: str, cov_dir: str | None) -> dict | None:
         got += len(h)
         files[f] = {"executable": len(ex), "executed": len(h), "missed": _ranges(ex - h)}
         never += ["%s:%s" % (f, q) for q, own in sorted(funcs.items()) if not (own & h)]
+    # files outside the property's anchors that the run imported: compact form, used by docs/covreport.py to tell which
+    # lines NO check executes (a file anchored by one property is often exercised by the check of another)
+    other = {}
+    for f in sorted(hit):
+        if f in files or not (lib.REPO / f).exists():
+            continue
+        try:
+            ex, _ = executable(lib.REPO / f)
+        except (SyntaxError, OSError):
+            continue
+        if ex:
+            other[f] = {"executable": len(ex), "missed": _ranges(ex - hit[f])}
     return {"what": "executable lines of the property's anchored files executed by this run, in the harness process and "
                     "every worker process (sys.monitoring); import-time lines count as executed; measurement only",
             "executable": tot, "executed": got, "percent": round(100.0 * got / tot, 1) if tot else 0.0,
-            "functions_never_entered": never, "files": files}
+            "functions_never_entered": never, "files": files, "other_files": other}
